@@ -100,6 +100,7 @@ type ksWorld struct {
 	globalMW  bool // a middleware in front of everything (then every request has a matched route)
 	customEH  bool // the application configures its own ErrorHandler (observes, then delegates)
 	customCtx bool // the application brings its own context type (NewCtxFunc)
+	wireCheck bool // routing leaves paths as sent (case-sensitive, no unescaping): accessor values can be compared with the wire
 	kept      []*kept
 	unstable  []string
 }
@@ -376,6 +377,14 @@ func (w *ksWorld) build(cfg fiber.Config) *fiber.App {
 		}
 		if w.immutMode && w.immutable && w.yield && o != nil {
 			w.keep(c, id)
+		}
+		if w.immutMode && w.wireCheck && o != nil && id >= 0 && id < len(w.reqs) {
+			// with or without the option: what an accessor returns is what the request carried
+			for _, kv := range ksAccess(c) {
+				if want, ok := w.reqs[id].wire[kv[0]]; ok && kv[1] != want && !strings.HasPrefix(kv[0], "Params") {
+					w.s.Fail("C06.value."+accName(kv[0]), "request %d: %s returned %q inside the handler, the request carried %q", id, kv[0], strings.ToValidUTF8(kv[1], "?"), want)
+				}
+			}
 		}
 		if before != nil {
 			after := ksAccess(c)
@@ -777,6 +786,15 @@ func ksGenerate(s *simrt.Sim, nconn int, flashValid string) []*ksReq {
 		}
 		host := simrt.PickS(s, "example.com", "sub.example.com", "a.b.example.org:8080")
 		r.wire["Host"] = host
+		xfp := ""
+		for _, h := range hdr {
+			if h[0] == "X-Forwarded-Proto" {
+				xfp = h[1]
+			}
+		}
+		if xfp == "" {
+			r.wire["BaseURL"] = "http://" + host // (TrustProxy is off: a forwarded scheme plays no part)
+		}
 		r.wire["Body"] = body
 		r.raw = harness.Req{Method: method, Path: path, Host: host, Headers: hdr, Body: []byte(body)}.Bytes()
 		out = append(out, r)
@@ -815,6 +833,7 @@ func ksRun(s *simrt.Sim, info *harness.RunInfo, immutMode bool) {
 		cfg.Views = ksViews{}
 		cfg.PassLocalsToViews = s.Chance(500)
 	}
+	w.wireCheck = !cfg.UnescapePath && cfg.CaseSensitive
 	cfgLine += fmt.Sprintf(" globalMW=%v customEH=%v customCtx=%v views=%v passLocals=%v", w.globalMW, w.customEH, w.customCtx, cfg.Views != nil, cfg.PassLocalsToViews)
 	s.Logf("cfg %s", cfgLine)
 	// a valid flash cookie value, as a server issues it
